@@ -43,6 +43,11 @@ fn setup(db: &mut Db) -> Result<(), String> {
             run(format!("INSERT INTO o VALUES ({})", r.iter().map(crate::model::lit).collect::<Vec<_>>().join(", ")))?;
         }
     }
+    // one column per numeric type (typed-select group)
+    run("CREATE TABLE m (id INT, i INT, b BIGINT, u UINT, q BIGUINT, f FLOAT, d DOUBLE)".into())?;
+    for r in m_rows() {
+        run(format!("INSERT INTO m VALUES ({})", r.iter().map(crate::model::lit).collect::<Vec<_>>().join(", ")))?;
+    }
     for (name, rows) in [("t", t_rows()), ("u", u_rows()), ("w", w_rows())] {
         let body = rows.iter().map(|r| format!("({})", r.iter().map(crate::model::lit).collect::<Vec<_>>().join(", "))).collect::<Vec<_>>().join(", ");
         run(format!("INSERT INTO {name} VALUES {body}"))?;
@@ -204,9 +209,84 @@ fn agg(name: &str, vals: &[Val]) -> Val {
 }
 
 /// all queries of a group, in a fixed order
+/// m(id INT, i INT, b BIGINT, u UINT, q BIGUINT, f FLOAT, d DOUBLE); the floats are exactly representable in f32
+pub fn m_rows() -> Vec<Vec<Val>> {
+    vec![
+        vec![Val::Int(1), Val::Int(7), Val::Int(3), Val::Int(5), Val::Int(9), Val::real(0.5), Val::real(2.5)],
+        vec![Val::Int(2), Val::Int(-3), Val::Int(-7), Val::Int(2), Val::Int(1), Val::real(-1.5), Val::real(0.25)],
+        vec![Val::Int(3), Val::Int(0), Val::Int(4_000_000_000), Val::Int(4_000_000_000), Val::Int(10_000_000_000), Val::real(2.25), Val::real(1_000_000.5)],
+    ]
+}
+
+/// `SELECT id, x op y FROM m` for every ordered pair of typed operands and every arithmetic operator. The result type the
+/// binder infers becomes the type of the output column, so this is where a wrong promotion table shows (a DOUBLE result
+/// truncated to BIGINT, an unsigned result read as signed, ...). Results that do not fit the promoted type (i64, or u64
+/// when both operands are unsigned), integer division by zero and NaN are left to C16 (they must be errors, not panics).
+fn typed_select_queries() -> Vec<Query> {
+    // (sql text, column index in m or literal value, unsigned?)
+    let ops: [(&str, Option<usize>, Option<Val>, bool); 9] = [
+        ("i", Some(1), None, false),
+        ("b", Some(2), None, false),
+        ("u", Some(3), None, true),
+        ("q", Some(4), None, true),
+        ("f", Some(5), None, false),
+        ("d", Some(6), None, false),
+        ("2", None, Some(Val::Int(2)), false),
+        ("0.5", None, Some(Val::real(0.5)), false),
+        ("3000000000", None, Some(Val::Int(3_000_000_000)), false),
+    ];
+    let rows = m_rows();
+    let mut out = vec![];
+    for (xs, xi, xl, xu) in &ops {
+        for (ys, yi, yl, yu) in &ops {
+            for (op, sym) in [(ArOp::Add, "+"), (ArOp::Sub, "-"), (ArOp::Mul, "*"), (ArOp::Div, "/"), (ArOp::Mod, "%")] {
+                let ex = match (xi, xl) {
+                    (Some(i), _) => col(xs, *i),
+                    (_, Some(v)) => E::Lit(v.clone()),
+                    _ => unreachable!(),
+                };
+                let ey = match (yi, yl) {
+                    (Some(i), _) => col(ys, *i),
+                    (_, Some(v)) => E::Lit(v.clone()),
+                    _ => unreachable!(),
+                };
+                let e = ar(ex, op, ey);
+                let mut defined = true;
+                let mut exp = vec![];
+                for r in &rows {
+                    // a zero divisor is an error in SQL whatever the types (the engine agrees for integer divisors of any
+                    // dividend; a floating zero divisor yields infinity): left to C16
+                    if matches!(op, ArOp::Div | ArOp::Mod) && matches!(eval(&ar(E::Lit(Val::Int(0)), ArOp::Add, match (yi, yl) { (Some(i), _) => col(ys, *i), (_, Some(v)) => E::Lit(v.clone()), _ => unreachable!() }), r), Ok(v) if v.as_f64() == Some(0.0)) {
+                        defined = false;
+                    }
+                    match eval(&e, r) {
+                        Ok(Val::Int(v)) => {
+                            let fits = if *xu && *yu { v >= 0 && v <= u64::MAX as i128 } else { v >= i64::MIN as i128 && v <= i64::MAX as i128 };
+                            if !fits {
+                                defined = false;
+                            }
+                            exp.push(vec![r[0].clone(), Val::Int(v)]);
+                        }
+                        Ok(Val::Real(b)) => {
+                            if f64::from_bits(b).is_nan() {
+                                defined = false;
+                            }
+                            exp.push(vec![r[0].clone(), Val::Real(b)]);
+                        }
+                        _ => defined = false,
+                    }
+                }
+                out.push(Query { sql: format!("SELECT id, {xs} {sym} {ys} FROM m"), expect: if defined { Ok(exp) } else { Err("left to C16".into()) }, ordered: false, tie_groups: None, tags: vec!["typed-select"] });
+            }
+        }
+    }
+    out
+}
+
 pub fn queries(group: &str) -> Vec<Query> {
     let mut q: Vec<Query> = vec![];
     match group {
+        "typed-select" => q = typed_select_queries(),
         "where-atoms" => {
             for a in atoms() {
                 q.push(where_query(&a));
